@@ -642,15 +642,24 @@ def exec (model : CpuModel) (i : Instr) : SM Out :=
     | none => sunspec
   | _, _ => sunspec
 
+/-- Known deviations: extra P bits left unconstrained for one (model, opcode).
+    `noDev` is the full specification. -/
+abbrev Dev := CpuModel → Byte → PMask
+def noDev : Dev := fun _ _ => 0
+
 /-- one instruction: fetch the opcode, decode; an undecodable opcode is an error that leaves
     every register as it was (PC still pointing at the opcode) -/
-def step (model : CpuModel) : SM Out := do
+def stepDev (dev : Dev) (model : CpuModel) : SM Out := do
   let r ← get
   let opc ← sld r.pc
   match decode model opc with
   | none => sfail (.illegal opc r.pc)
   | some i => do
     set { r with pc := r.pc + 1 }
-    exec model i
+    let out ← exec model i
+    pure { out with pmask := out.pmask ||| dev model opc }
+
+/-- the specification of one instruction step -/
+def step (model : CpuModel) : SM Out := stepDev noDev model
 
 end Verif.Spec
